@@ -55,6 +55,9 @@ fn main() {
         "c09" => vmon::c09::run(&p),
         "c10" => vmon::c10::run(&p),
         "c11" => vmon::filt::run_c11(&p),
+        "c13" => vmon::c13::run(&p),
+        "c18" => vmon::c18::run(&p),
+        "c20" => vmon::c20::run(&p),
         "c12" => vmon::filt::run_c12(&p),
         _ => {
             eprintln!("unknown property {}", prop);
